@@ -474,15 +474,70 @@ def check_gentag(ck, mod, ks, label, rulemap):
 def check_absorb(ck, mod, ks, label, rulemap):
     klen = int(ks)
     f = mod.fn("tinyjambu_absorb_%s" % ks)
-    c = Ctx(ck, f, label, rulemap)
-    c.defer()
     di = f.param_index("domain")
     ri = f.param_index("rounds")
     ex, ps = run_paths(f, klen, word_args=[di])
+    chains = data_chains(f, ps)
+    if any(len(ch_["heads"]) != 1 for ch_ in chains):
+        raise Broken("%s: several data loops in a row: unrecognised shape" % f.name)
+    n = 0
+    for i_, ch_ in enumerate(chains):
+        # (alternative loops chosen by a test of the data pointer's alignment: each is checked on its own)
+        c = Ctx(ck, f, label if len(chains) == 1 else "%s/loop-%d-of-%d" % (label, i_ + 1, len(chains)), rulemap)
+        n += _check_absorb_loop(c, f, ex, ch_["ps"], ch_["heads"][0], klen, di, ri)
+    return n
+
+
+def check_absorb_small(ck, mod, ks, label, rulemap, maxlen=40):
+    """tinyjambu_absorb_N for EVERY size 0..maxlen as straight path(s) (size concrete, data symbolic): whatever the loop structure"""
+    klen = int(ks)
+    f = mod.fn("tinyjambu_absorb_%s" % ks)
+    c = Ctx(ck, f, label, rulemap)
+    di, ri, si = f.param_index("domain"), f.param_index("rounds"), f.param_index("size")
+    DATA = ("arg", f.param_index("data"))
+    st = ("arg", 0)
+    D = gf2.wzext(gf2.sym_word(("argw", di), 8), 32)
+    bad = None
+    npaths = 0
+    for L in range(maxlen + 1):
+        ex = irx.Exec(f, mode.Handler(klen), mode.havoc_state(klen // 32), word_args=[di], auto=True, unrotate=True, split_max=32, arg_consts={si: L})
+        for p in ex.run():
+            if p.end[0] != "ret" or any(e[0] == "cond-data" for e in p.events) or problems(p):
+                raise Broken("%s: with size %d a path does not run straight through to the return: not decided by the small-length rule" % (f.name, L))
+            npaths += 1
+            S = [gf2.sym_word(("mem", st, 4 * i), 8) + gf2.sym_word(("mem", st, 4 * i + 1), 8) + gf2.sym_word(("mem", st, 4 * i + 2), 8) + gf2.sym_word(("mem", st, 4 * i + 3), 8) for i in range(4)]
+            P = [e for e in p.events if e[0] == "P"]
+            steps = word_steps(L)
+            why = None
+            if len(P) != len(steps):
+                why = "%d permutation(s) where the data has %d word(s)" % (len(P), len(steps))
+            else:
+                for e, (off, nb) in zip(P, steps):
+                    if not mode.words_eq([list(w) for w in e[3]], [S[0], gf2.wxor(S[1], D), S[2], S[3]]):
+                        why = why or "state entering the permutation of the word at offset %d: %s" % (off, mode.first_diff([list(w) for w in e[3]], [S[0], gf2.wxor(S[1], D), S[2], S[3]]))
+                    if e[2] != repr(Lf.s(("n", ri))):
+                        why = why or "the permutation at offset %d runs %s rounds, not the caller's round count" % (off, e[2])
+                    Q = mode.Pw(e[1])
+                    x = mode.le_bytes([mode.inbyte(DATA, off + j) for j in range(nb)], nb)
+                    S = [Q[0], Q[1] if nb == 4 else gf2.wxor(Q[1], W(nb)), Q[2], gf2.wxor(Q[3], x)]
+                final = mode.state_obj_words(ex, p, st, 4)
+                if why is None and not mode.words_eq(final, S):
+                    why = "state after absorbing: %s" % mode.first_diff(final, S)
+            ins = {k_ for (o_, k_) in mode.ins_of(p) if o_ == DATA}
+            if why is None and not ins <= set(range(L)):
+                why = "reads data offsets %s with a size of %d" % (sorted(ins - set(range(L)))[:4], L)
+            if why and bad is None:
+                bad = (L, why)
+    c.ob(bad is None, "SMALL", "absorb-whole(size 0..%d)" % maxlen, "for every size 0..%d (%d straight paths): one permutation per 4-byte word with the domain in word 1, the word xored into word 3, "
+         "the length of a partial last word injected into word 1; only data[0, size) read" % (maxlen, npaths), "with size = %s: %s" % (bad[0] if bad else "?", bad[1] if bad else ""))
+    return 1
+
+
+def _check_absorb_loop(c, f, ex, ps, hdr, klen, di, ri):
+    c.defer()
     D = gf2.wzext(gf2.sym_word(("argw", di), 8), 32)
     S = [gf2.sym_word(("S", i), 32) for i in range(4)]
     st = ("arg", 0)
-    hdr = main_loop(f, ps)
     ptrs, ints = hd_syms(f, hdr)
     idx_style = not ptrs and len(ints) == 1
     if not idx_style and (len(ptrs) != 1 or len(ints) != 1):
@@ -1085,6 +1140,230 @@ def check_siv_auth(c, ex, p, f, A, ev, ks, klen, name):
     c.ob(ok, "MODE", "%s-siv-mac" % name, "MAC recomputed: setup(npub,0x90); absorb(ad,0x30,5 rounds); absorb(recovered plaintext, clen-8, 0x50, keyed rounds); tag",
          "authentication pass differs from the specification: setups %s absorbs %s" % ([(hex(e[2] or 0), e[7]) for e in su], [(hex(e[2] or 0), e[3], e[5], e[6]) for e in ab]))
     return 1
+
+
+def _le64(v):
+    return [gf2.const_word((v >> (8 * i)) & 0xFF, 8) for i in range(8)]
+
+
+def _small_path(ex, p, f, A, kind, enc, L, klen, names, st):
+    """one straight path of a cipher function for a concrete message length: -> (conformance finding, i/o-discipline finding), None = fine.
+    Conformance: the calls, the permutation inputs and every output byte are those of the documented mode, word by word.
+    I/O discipline (independent of the mode's constants): length stored, exactly the output bytes written, tag position, load before
+    store per offset, reads inside the input"""
+    nk = klen // 32
+    n = L if enc else L - 8
+    ev = calls_of(p)
+    outs = mode.outs_of(p)
+    in_name, out_name = ("m", "c") if enc else ("c", "m")
+    IN, OUT = A[in_name], A[out_name]
+    conf = io = None
+
+    def C(msg):
+        nonlocal conf
+        conf = conf or msg
+
+    def IO(msg):
+        nonlocal io
+        io = io or msg
+    if problems(p):
+        raise Broken("%s: with length %d the path has accesses the evaluation does not resolve (%s)" % (f.name, L, problems(p)[:2]))
+    rv = p.end[1]
+    if not enc and L < 8:
+        k = ex.subst(p, rv).const() if (rv is not None and not is_word(rv)) else None
+        if ev or outs or k is None or (k & 0xFFFFFFFF) != 0xFFFFFFFF:
+            IO("an input of %d byte(s) (shorter than a tag) is not refused with -1 before anything is called or written (calls %s, writes %s, returns %s)" % (L, [e[0] for e in ev], list(outs)[:2], k))
+        return conf, io
+    want_k = [gf2.wnot(mode.le_bytes([mode.inbyte(A["k"], 4 * i + b) for b in range(4)], 4)) for i in range(nk)]
+    steps = word_steps(n)
+    pos = [0]
+
+    def nxt(kindname):
+        if pos[0] >= len(ev) or ev[pos[0]][0] != kindname:
+            C("call %d is %s where the mode has %s (calls: %s)" % (pos[0], ev[pos[0]][0] if pos[0] < len(ev) else "nothing", kindname, [e[0] for e in ev]))
+            return None
+        e = ev[pos[0]]
+        pos[0] += 1
+        return e
+
+    def syms(tag, e):
+        return [gf2.sym_word((tag, e[1], i), 32) for i in range(4)]
+
+    def setup(dom, nonce_bits, ptr):
+        e = nxt("SETUP")
+        if e is None:
+            return None
+        if e[2] != dom or e[6] != names["setup"]:
+            C("setup call is %s with domain %s, the mode has %s with 0x%02X" % (e[6], hex(e[2]) if e[2] is not None else e[2], names["setup"], dom))
+        if ptr is not None and e[7] != ptr:
+            C("setup reads the nonce at %s, expected %s" % (e[7], ptr))
+        if nonce_bits is not None and tuple(e[3]) != tuple(nonce_bits):
+            C("the 12 nonce bytes handed to setup (domain 0x%02X) are not the ones the mode composes" % dom)
+        if not mode.words_eq([list(w) for w in e[4]], want_k):
+            C("key words are not NOT LE32(k) when setup is called: %s" % mode.first_diff([list(w) for w in e[4]], want_k))
+        return syms("SETUP", e)
+
+    def absorb(S, dom, rounds, ptr, ln):
+        e = nxt("ABSORB")
+        if e is None:
+            return None
+        if (e[2], e[3], e[5], e[6], e[8]) != (dom, rounds, ptr, ln, names["absorb"]):
+            C("absorb call is %s(domain %s, %s rounds, %s, %s), the mode has %s(0x%02X, %d, %s, %s)" % (e[8], hex(e[2] or 0), e[3], e[5], e[6], names["absorb"], dom, rounds, ptr, ln))
+        if S is not None and not mode.words_eq([list(w) for w in e[4]], S):
+            C("absorb (domain 0x%02X) does not continue from the state the previous call left" % dom)
+        return syms("ABSORB", e)
+
+    def data_pass(S, dom, absorbs):
+        """keystream / message pass over n bytes from state S; returns the state after it"""
+        exp = {}
+        for (off, nb) in steps:
+            e = nxt("P")
+            if e is None or S is None:
+                return None, exp
+            if e[2] != KR[klen] or e[6] != names["perm"]:
+                C("message permutation at offset %d is %s with %s rounds, the mode has %s with %d" % (off, e[6], e[2], names["perm"], KR[klen]))
+            if not mode.words_eq([list(w) for w in e[3]], mode.fb(S, dom)):
+                C("state entering the permutation of the word at offset %d: %s" % (off, mode.first_diff([list(w) for w in e[3]], mode.fb(S, dom))))
+            if not mode.words_eq([list(w) for w in e[4]], want_k):
+                C("key words changed before the permutation of the word at offset %d" % off)
+            Q = mode.Pw(e[1])
+            xin = mode.le_bytes([mode.inbyte(IN, off + j) for j in range(nb)], nb)
+            if enc:
+                absorbed = xin
+                outw = gf2.wxor(xin, Q[2])
+            else:
+                outw = mode.mask_r(gf2.wxor(xin, Q[2]), nb)
+                absorbed = outw
+            for j in range(nb):
+                exp[off + j] = outw[8 * j: 8 * j + 8]
+            S = [Q[0], Q[1] if nb == 4 else gf2.wxor(Q[1], W(nb)), Q[2], gf2.wxor(Q[3], absorbed)] if absorbs else Q
+        return S, exp
+    npub_p, ad_p, adlen_p = repr(Lf.s(A["npub"])), repr(Lf.s(A["ad"])), repr(Lf.s(A["adlen"]))
+    nonce1 = None
+    tagpos = repr(Lf({A["c"]: 1, 1: n}) if n else Lf.s(A["c"]))
+    gt = None
+    if kind == "aead":
+        S = setup(0x10, nonce1, npub_p)
+        S = absorb(S, 0x30, P640, ad_p, adlen_p)
+        S, exp = data_pass(S, 0x50, True)
+        gt = nxt("GENTAG")
+        if gt is not None and S is not None:
+            if gt[5] != names["gentag"] or not mode.words_eq([list(w) for w in gt[2]], S):
+                C("the tag is not generated by %s from the state after the last block" % names["gentag"])
+    elif enc:
+        S = setup(0x90, nonce1, npub_p)
+        S = absorb(S, 0x30, P640, ad_p, adlen_p)
+        S = absorb(S, 0x50, KR[klen], repr(Lf.s(A["m"])), repr(Lf.c(n)))
+        gt = nxt("GENTAG")
+        if gt is not None and S is not None and (gt[5] != names["gentag"] or not mode.words_eq([list(w) for w in gt[2]], S)):
+            C("the synthetic IV is not generated from the state after absorbing AD and plaintext")
+        n2 = []
+        for k in range(4):
+            n2.extend(mode.inbyte(A["npub"], k))
+        if gt is not None:
+            for k in range(8):
+                n2.extend(gf2.sym_word(("TAG", gt[1], k), 8))
+        S = setup(0xB0, n2 if gt is not None else None, None)
+        S, exp = data_pass(S, 0xD0, False)
+    else:
+        n2 = []
+        for k in range(4):
+            n2.extend(mode.inbyte(A["npub"], k))
+        for k in range(8):
+            n2.extend(mode.inbyte(A["c"], n + k))
+        S = setup(0xB0, n2, None)
+        S, exp = data_pass(S, 0xD0, False)
+        S = setup(0x90, nonce1, npub_p)
+        S = absorb(S, 0x30, P640, ad_p, adlen_p)
+        S = absorb(S, 0x50, KR[klen], repr(Lf.s(A["m"])), repr(Lf.c(n)))
+        gt = nxt("GENTAG")
+        if gt is not None and S is not None and (gt[5] != names["gentag"] or not mode.words_eq([list(w) for w in gt[2]], S)):
+            C("the tag to compare is not generated from the state after absorbing AD and the recovered plaintext")
+    # ---- outputs
+    for j in range(n):
+        got = outs.get((OUT, j))
+        if got is None:
+            IO("output byte %d of %d is never written" % (j, n))
+        elif j in exp and got != exp[j]:
+            C("output byte %d is %s, the mode has %s" % (j, gf2.describe(got[0]), gf2.describe(exp[j][0])))
+    lenobj = A["clen"] if enc else A["mlen"]
+    lenval = n + 8 if enc else n
+    gotlen = [outs.get((lenobj, b)) for b in range(8)]
+    if gotlen != _le64(lenval):
+        IO("*%s is not set to %d" % ("clen" if enc else "mlen", lenval))
+    allowed = {(OUT, j) for j in range(n + (8 if enc else 0))} | {(lenobj, b) for b in range(8)}
+    extra = [k_ for k_ in outs if k_ not in allowed and not (k_[0] == IN and outs[k_] == mode.inbyte(k_[0], k_[1]))]
+    if extra:
+        IO("writes outside the %d output bytes and the length: %s" % (n + (8 if enc else 0), sorted(extra, key=repr)[:4]))
+    if enc:
+        if gt is not None:
+            if gt[3] != tagpos:
+                IO("the tag is written at %s, expected c + %d" % (gt[3], n))
+            for b in range(8):
+                if outs.get((A["c"], n + b)) != gf2.sym_word(("TAG", gt[1], b), 8):
+                    IO("c[%d] does not hold tag byte %d at return" % (n + b, b))
+                    break
+        if pos[0] != len(ev):
+            C("calls after the mode is complete: %s" % [e[0] for e in ev[pos[0]:]])
+    else:
+        ch = nxt("CHECK")
+        if ch is not None:
+            if gt is not None and tuple(ch[4]) != tuple(b for kk in range(8) for b in gf2.sym_word(("TAG", gt[1], kk), 8)):
+                IO("check_tag does not compare the tag just generated")
+            if ch[5] != tagpos or ch[6] != 8:
+                IO("the received tag is read at %s (%s bytes), expected c + %d (8 bytes)" % (ch[5], ch[6], n))
+            if ch[2] != repr(Lf.s(A["m"])) or ch[3] != repr(Lf.c(n)):
+                IO("check_tag is given (%s, %s) to wipe on rejection, expected (m, %d)" % (ch[2], ch[3], n))
+            if not (isinstance(rv, Lf) and rv == Lf.s(("verdict", ch[1]))):
+                IO("the function does not return check_tag's verdict")
+        if pos[0] != len(ev):
+            C("calls after the mode is complete: %s" % [e[0] for e in ev[pos[0]:]])
+    okal, badj = mode.alias_order_ok(p, IN, OUT)
+    if not okal:
+        IO("input byte %s is loaded after output byte %s was stored: wrong when both share one buffer" % (badj, badj))
+    ins = {k_ for (o_, k_) in mode.ins_of(p) if o_ == IN}
+    lim = n if enc else n + 8
+    if not ins <= set(range(lim)):
+        IO("reads input offsets %s with an input of %d byte(s)" % (sorted(ins - set(range(lim)))[:4], lim))
+    return conf, io
+
+
+def check_cipher_small(ck, mod, f, label, rulemap, maxlen=40):
+    """every message length 0..maxlen, each evaluated as straight path(s) (length concrete, data symbolic; a test of buffer alignment gives
+    one path per class): independent of how the loops are written.  Longer messages are the per-class rules' (generic iteration)"""
+    m = FN_RE.match(f.name)
+    ks, kind, direction = m.group(1), m.group(2), m.group(3)
+    klen = int(ks)
+    enc = direction == "encrypt"
+    c = Ctx(ck, f, label, rulemap)
+    names = spec_names(ks, kind)
+    A = {nm: irx.argsym(f, f.param_index(nm)) for nm in ("c", "m", "ad", "npub", "k", "clen", "mlen", "adlen")}
+    li = f.param_index("mlen" if enc else "clen")
+    st = mode.find_state_obj(f)
+    badc = badio = None
+    npaths = 0
+    top = maxlen if enc else maxlen + 8
+    for L in range(top + 1):
+        ex = irx.Exec(f, mode.Handler(klen), mode.havoc_state(klen // 32), auto=True, unrotate=True, split_max=32, arg_consts={li: L})
+        ps = ex.run()
+        for p in ps:
+            if p.end[0] != "ret":
+                raise Broken("%s: with length %d a path does not run through to the return (ends with %s): not decided by the small-length rule" % (f.name, L, p.end[0]))
+            if any(e[0] == "cond-data" for e in p.events):
+                raise Broken("%s branches on data bits: not decided by the small-length rule" % f.name)
+            npaths += 1
+            cf, io = _small_path(ex, p, f, A, kind, enc, L, klen, names, st)
+            if cf and badc is None:
+                badc = (L, cf)
+            if io and badio is None:
+                badio = (L, io)
+    what = "%s 0..%d" % ("mlen" if enc else "clen", top)
+    c.ob(badc is None, "SMALL", "whole-message(%s)" % what, "for every length in %s (%d straight paths, data symbolic): the calls, every permutation input and every output byte are those of the "
+         "documented mode, word by word, whatever the loop structure" % (what, npaths), "with %s = %s: %s" % ("mlen" if enc else "clen", badc[0] if badc else "?", badc[1] if badc else ""))
+    c.ob(badio is None, "SMALLIO", "whole-message-io(%s)" % what, "for every length in %s: length stored, exactly the output bytes written, tag written / read right behind the message, every input byte "
+         "loaded before the output byte at its offset is stored, no read outside the input; decrypt returns check_tag's verdict and hands it (m, clen - 8); inputs shorter than a tag refused" % what,
+         "with %s = %s: %s" % ("mlen" if enc else "clen", badio[0] if badio else "?", badio[1] if badio else ""))
+    return 2
 
 
 def cipher_fns(mod, kinds):
